@@ -57,6 +57,13 @@ void EpollLoop::runLoop(Mode mode)
     if (epoll_fd_ < 0)
         return;
 
+    //! a second runLoop() on a running loop (from one of its own callbacks, or from another thread) would
+    //! replace the wake-up eventfd, swap the batch being executed back into the queue and leave the first loop deaf
+    if (isRunning()) {
+        LogWarn("runLoop() called while the loop is running, ignored");
+        return;
+    }
+
     std::vector<struct epoll_event> events;
     /*
      * Why not events.reserve()?
